@@ -650,7 +650,85 @@ def r10_11(chk):
     chk.floor("R10.11", 4, "title, legend, space, index_name (+ format)")
 
 
+MUTATORS = {"pop", "popitem", "update", "clear", "setdefault", "append", "extend", "remove", "insert", "sort", "reverse"}
+
+
+def r10_12(chk):
+    chk.rule("R10.12", "a reader that takes its input apart must be given something it may take apart: for every key K whose value a deserialiser in util/deserialise.py mutates (`init = data.pop(K)` followed by init.pop(...) / item stores / update ...), each to_rich_dict that writes key K builds that value afresh (a dict/list display, dict(...)/list(...)/copy call or comprehension) -- never a bare reference to an attribute of the object; otherwise inflating the rich dict once empties the live object's own record (a NotCompleted inside a result: the second to_rich_dict / pickle raised KeyError)")
+    dm = chk.repo.module("util/deserialise.py")
+    consumed = {}  # key -> (function name, mutating node)
+    for q, fn in dm.all_functions():
+        params = set(params_of(fn))
+        bound = {}
+        for st in walk_no_nested(fn):
+            if isinstance(st, ast.Assign) and len(st.targets) == 1 and isinstance(st.targets[0], ast.Name):
+                v = st.value
+                k_ = None
+                if isinstance(v, ast.Call) and isinstance(v.func, ast.Attribute) and v.func.attr in ("pop", "get") and isinstance(v.func.value, ast.Name) and v.func.value.id in params and v.args and isinstance(v.args[0], ast.Constant):
+                    k_ = v.args[0].value
+                elif isinstance(v, ast.Subscript) and isinstance(v.value, ast.Name) and v.value.id in params and isinstance(v.slice, ast.Constant):
+                    k_ = v.slice.value
+                if isinstance(k_, str):
+                    bound[st.targets[0].id] = k_
+        for x in walk_no_nested(fn):
+            if isinstance(x, ast.Call) and isinstance(x.func, ast.Attribute) and x.func.attr in MUTATORS and isinstance(x.func.value, ast.Name) and x.func.value.id in bound:
+                consumed.setdefault(bound[x.func.value.id], (q, x))
+            if isinstance(x, (ast.Subscript,)) and isinstance(x.ctx, (ast.Store, ast.Del)) and isinstance(x.value, ast.Name) and x.value.id in bound:
+                consumed.setdefault(bound[x.value.id], (q, x))
+            # data[K].pop(...) / data[K][..] = ...
+            if isinstance(x, ast.Call) and isinstance(x.func, ast.Attribute) and x.func.attr in MUTATORS and isinstance(x.func.value, ast.Subscript) and isinstance(x.func.value.value, ast.Name) and x.func.value.value.id in params and isinstance(x.func.value.slice, ast.Constant) and isinstance(x.func.value.slice.value, str):
+                consumed.setdefault(x.func.value.slice.value, (q, x))
+            if isinstance(x, ast.Subscript) and isinstance(x.ctx, (ast.Store, ast.Del)) and isinstance(x.value, ast.Subscript) and isinstance(x.value.value, ast.Name) and x.value.value.id in params and isinstance(x.value.slice, ast.Constant) and isinstance(x.value.slice.value, str):
+                consumed.setdefault(x.value.slice.value, (q, x))
+    if not consumed:
+        raise AnalysisError("util/deserialise.py: no consumed sub-structure found (matcher broken?)")
+    n = 0
+    for mod in chk.repo.all_modules():
+        if "to_rich_dict" not in mod.source:
+            continue
+        for q, fn in mod.all_functions():
+            if not q.endswith("to_rich_dict"):
+                continue
+            for d_ in ast.walk(fn):
+                pairs = []
+                if isinstance(d_, ast.Dict):
+                    pairs = [(kx.value, v) for kx, v in zip(d_.keys, d_.values) if isinstance(kx, ast.Constant)]
+                elif isinstance(d_, ast.Call) and norm(d_.func) == "dict":
+                    pairs = [(kw.arg, kw.value) for kw in d_.keywords if kw.arg]
+                elif isinstance(d_, ast.Assign) and len(d_.targets) == 1 and isinstance(d_.targets[0], ast.Subscript) and isinstance(d_.targets[0].slice, ast.Constant):
+                    pairs = [(d_.targets[0].slice.value, d_.value)]
+                for kx, v in pairs:
+                    if kx not in consumed:
+                        continue
+                    n += 1
+                    rq, rnode = consumed[kx]
+                    bare = isinstance(v, ast.Attribute) and isinstance(v.value, ast.Name) and v.value.id == "self"
+                    chk.decide(not bare, "R10.12", key(mod, q, f"value of '{kx}' is built afresh"), mod.loc(v), f"`{norm(v)[:50]}` is a new structure ({rq} takes it apart)", f"`{norm(v)}` is the object's own record, handed out by reference under '{kx}'; {rq} mutates what it finds there (`{norm(rnode)[:50]}`): deserialise_object(obj.to_rich_dict()) empties the live object's record")
+    chk.extra["R10.12 consumed keys"] = sorted(consumed)
+    chk.floor("R10.12", 1, "NotCompleted's construction record")
+
+
+def r10_13(chk):
+    chk.rule("R10.13", "exported parameter rules name their own scope: in LikelihoodFunction.to_rich_dict a rule from get_param_rules() is filed under the locus / edge / bin it carries (rule['locus'] ...), never paired by position (zip / enumerate / index) with self.locus_names or another name list -- the rules come out ordered by scope key, the name lists in the user's order, so for loci=['nuclear', 'mito'] positional pairing stores each alignment under the other locus")
+    m = chk.repo.module("evolve/likelihood_function.py")
+    q = "LikelihoodFunction.to_rich_dict"
+    fn = m.func(q)
+    rule_names = {st.targets[0].id for st in walk_no_nested(fn) if isinstance(st, ast.Assign) and isinstance(st.targets[0], ast.Name) and any(isinstance(c, ast.Call) and isinstance(c.func, ast.Attribute) and c.func.attr == "get_param_rules" for c in ast.walk(st.value))}
+
+    def from_rules(e):
+        return any(isinstance(c, ast.Call) and isinstance(c.func, ast.Attribute) and c.func.attr == "get_param_rules" for c in ast.walk(e)) or any(isinstance(x, ast.Name) and x.id in rule_names for x in ast.walk(e))
+
+    uses = [c for c in walk_no_nested(fn) if isinstance(c, ast.Call) and isinstance(c.func, ast.Attribute) and c.func.attr == "get_param_rules"]
+    if not uses:
+        raise AnalysisError(f"{q}: get_param_rules() not used")
+    bad = [c for c in walk_no_nested(fn) if isinstance(c, ast.Call) and norm(c.func) in ("zip", "enumerate") and any(from_rules(a) for a in c.args)]
+    chk.decide(not bad, "R10.13", key(m, q, "rules are filed by the scope they carry"), m.loc(bad[0] if bad else uses[0]), "no positional pairing of exported rules", f"`{norm(bad[0])[:70] if bad else ''}` pairs the exported rules with another sequence by position: for loci=['nuclear', 'mito'] the alignments are stored under each other's names and the reloaded function has a different lnL")
+    chk.floor("R10.13", 1, "to_rich_dict")
+
+
 def run(chk):
+    r10_13(chk)
+    r10_12(chk)
     r10_11(chk)
     r10_10(chk)
     r10_9(chk)
